@@ -1,6 +1,5 @@
 package vsim
 
-
 import (
 	"encoding/json"
 	"fmt"
